@@ -547,55 +547,96 @@ def bezier_algebra(P, rep, rule="EXPR.bezier"):
                       key=rule + "|estimate")
 
 
+def bezier_record(P, rep, rule="BEZIER.record"):
+    """the closest-point record is updated as a whole"""
+    rep.rule(rule, "closest_point_on_curve_segment: every store to a field of the result record (distance, parametric_fraction, index, point, "
+                   "normal, interpolation_fraction) sits under one accept test together with stores to all the other fields -- the reported "
+                   "segment index, parameter, point and distance always describe the same candidate")
+    F = P.func("WorldBuilder::Objects::BezierCurve::closest_point_on_curve_segment")
+    rets = [sc(r["c"][0]) for r in F.walk() if r.get("k") == "ReturnStmt" and r.get("c")]
+    rk = {r.get("r") for r in rets if r.get("k") == "DeclRefExpr"}
+    if len(rk) != 1:
+        rep.unknown(rule, "result variable of closest_point_on_curve_segment not identified")
+        return
+    rk = rk.pop()
+    rec = P.d(rk).get("t", "")
+    groups = {}
+    for x in F.walk():
+        if x.get("k") in ("BinaryOperator", "CXXOperatorCallExpr") and x.get("op") == "=":
+            t = sc(x["c"][0])
+            if t.get("k") == "MemberExpr" and t.get("c") and astq.is_ref_to(t["c"][0], rk):
+                g = astq.enclosing(F, x, ("IfStmt",))
+                groups.setdefault(g["i"] if g else None, (g, {}))[1].setdefault(t.get("n"), x)
+    allf = set()
+    for g, fs in groups.values():
+        allf |= set(fs)
+    n = 0
+    for gid, (g, fs) in sorted(groups.items(), key=lambda kv: (kv[0] is None, kv[0] or 0)):
+        n += 1
+        missing = allf - set(fs)
+        if missing:
+            any_node = list(fs.values())[0]
+            rep.violation(rule, "fields %s are stored under `%s` without %s" % (sorted(fs), norm.render(P, g["c"][0])[:70] if g else "no test", sorted(missing)),
+                          F.nloc(any_node), F.qn, norm.render(P, any_node)[:120],
+                          "part of the record is overwritten by a candidate that is not accepted: index, parameter and point disagree",
+                          key="%s|%s" % (rule, "+".join(sorted(fs))), witness="a trench with three or more coordinates, query near a joint")
+        else:
+            rep.ok(rule, "accept block at %s stores all of %s" % (F.nloc(g) if g else "?", sorted(fs)), F.nloc(g) if g else F.loc, F.qn)
+    rep.floor(rule, n, 2, "accept blocks (Cartesian and spherical)")
+    if len(allf) < 5:
+        rep.unknown(rule, "only fields %s of the record are ever stored" % sorted(allf))
+
+
 def kd_structure(P, rep, rule="KD"):
     rep.rule(rule, "kd-tree search: the child on the query's side of the split is searched unconditionally, the other child is skipped only "
                    "when the split-axis difference node[axis] - query[axis] is not below the best distance; the branch test and the pruning "
                    "test use the same axis; build and search compute the same mid = (left+right)>>1; every visited node updates the minimum")
-    F = P.func("WorldBuilder::KDTree::KDTree::find_closest_points_recursive")
-    R = lambda n: norm.render(P, n, nocast=True).replace(" ", "")
-    top = [x for x in astq.stmts_of(F.body) if x.get("k") == "IfStmt"]
-    if len(top) != 1:
-        rep.unknown(rule, "search body shape")
-        return
-    T = top[0]
-    cond = R(T["c"][0])
-    if cond != "(check_point[y_axis]<node[y_axis])":
-        rep.violation(rule, "branch test is %s" % cond, F.nloc(T), F.qn, cond, "expected query[axis] < node[axis]", key=rule + "|branch")
-    problems = []
-    for side, blk, near, far in (("below", T["c"][1], ("left", "(mid-1)"), ("(mid+1)", "right")), ("above", T["c"][2], ("(mid+1)", "right"), ("left", "(mid-1)"))):
-        calls = [x for x in F.walk(blk) if x.get("k") == "CXXMemberCallExpr" and x.get("callee") == F.key]
-        if len(calls) != 2:
-            problems.append("%s branch has %d recursive calls" % (side, len(calls)))
+    for fname, best in (("find_closest_points_recursive", "index_distances.min_distance"), ("find_closest_point_recursive", "index_distance.distance")):
+        F = P.func("WorldBuilder::KDTree::KDTree::" + fname)
+        R = lambda n: norm.render(P, n, nocast=True).replace(" ", "")
+        top = [x for x in astq.stmts_of(F.body) if x.get("k") == "IfStmt"]
+        if len(top) != 1:
+            rep.unknown(rule, "%s: search body shape" % F.name)
             continue
-        for c in calls:
-            a = [R(z) for z in c["c"][1:]]
-            rng = (a[1], a[2])
-            guards = [R(g["c"][0]) for g in F.ancestors(c) if g.get("k") == "IfStmt" and g is not T]
-            prune = [g for g in guards if "min_distance" in g]
-            if rng == near:
-                if prune:
-                    problems.append("%s branch: the near child %s is pruned by %s" % (side, rng, prune[0]))
-            elif rng == far:
-                if len(prune) != 1 or prune[0] != "((node[y_axis]-check_point[y_axis])<index_distances.min_distance)":
-                    problems.append("%s branch: the far child %s is guarded by %s" % (side, rng, prune or "nothing"))
-            else:
-                problems.append("%s branch: recursion on %s" % (side, rng))
-            if a[3] not in ("!y_axis",):
-                problems.append("%s branch: child searched on axis %s" % (side, a[3]))
-        upd = [x for x in F.walk(blk) if x.get("k") == "IfStmt" and R(x["c"][0]) in ("(index_distances.min_distance>distance)", "(distance<index_distances.min_distance)")]
-        if len(upd) != 1:
-            problems.append("%s branch: minimum update missing" % side)
-    mids = [x for x in F.walk() if x.get("k") == "VarDecl" and x.get("n") == "mid" and x.get("c")]
-    B = P.func("WorldBuilder::KDTree::KDTree::create_tree")
-    midb = [x for x in B.walk() if x.get("k") == "VarDecl" and x.get("n") == "mid" and x.get("c")]
-    if not (len(mids) == 1 and len(midb) == 1 and R(mids[0]["c"][0]) == R(midb[0]["c"][0])):
-        problems.append("build and search compute different mid: %s vs %s" % (R(midb[0]["c"][0]) if midb else "?", R(mids[0]["c"][0]) if mids else "?"))
-    if problems:
-        for pr in problems:
-            rep.violation(rule, "kd-tree search: %s" % pr, F.loc, F.qn, "", "the search may miss the nearest centroid", key="%s|%s" % (rule, pr[:40]),
-                          witness="point set in which the nearest point lies across the split plane")
-    else:
-        rep.ok(rule, "near child unconditional, far child pruned on the split-axis difference, same mid in build and search", F.loc, F.qn)
+        T = top[0]
+        cond = R(T["c"][0])
+        if cond != "(check_point[y_axis]<node[y_axis])":
+            rep.violation(rule, "branch test is %s" % cond, F.nloc(T), F.qn, cond, "expected query[axis] < node[axis]", key="%s|%s|branch" % (rule, F.name))
+        problems = []
+        for side, blk, near, far in (("below", T["c"][1], ("left", "(mid-1)"), ("(mid+1)", "right")), ("above", T["c"][2], ("(mid+1)", "right"), ("left", "(mid-1)"))):
+            calls = [x for x in F.walk(blk) if x.get("k") == "CXXMemberCallExpr" and x.get("callee") == F.key]
+            if len(calls) != 2:
+                problems.append("%s branch has %d recursive calls" % (side, len(calls)))
+                continue
+            for c in calls:
+                a = [R(z) for z in c["c"][1:]]
+                rng = (a[1], a[2])
+                guards = [R(g["c"][0]) for g in F.ancestors(c) if g.get("k") == "IfStmt" and g is not T]
+                prune = [g for g in guards if best.split(".")[-1] in g]
+                if rng == near:
+                    if prune:
+                        problems.append("%s branch: the near child %s is pruned by %s" % (side, rng, prune[0]))
+                elif rng == far:
+                    if len(prune) != 1 or prune[0] != "((node[y_axis]-check_point[y_axis])<%s)" % best:
+                        problems.append("%s branch: the far child %s is guarded by %s" % (side, rng, prune or "nothing"))
+                else:
+                    problems.append("%s branch: recursion on %s" % (side, rng))
+                if a[3] not in ("!y_axis",):
+                    problems.append("%s branch: child searched on axis %s" % (side, a[3]))
+            upd = [x for x in F.walk(blk) if x.get("k") == "IfStmt" and R(x["c"][0]) in ("(%s>distance)" % best, "(distance<%s)" % best)]
+            if len(upd) != 1:
+                problems.append("%s branch: minimum update missing" % side)
+        mids = [x for x in F.walk() if x.get("k") == "VarDecl" and x.get("n") == "mid" and x.get("c")]
+        B = P.func("WorldBuilder::KDTree::KDTree::create_tree")
+        midb = [x for x in B.walk() if x.get("k") == "VarDecl" and x.get("n") == "mid" and x.get("c")]
+        if not (len(mids) == 1 and len(midb) == 1 and R(mids[0]["c"][0]) == R(midb[0]["c"][0])):
+            problems.append("build and search compute different mid: %s vs %s" % (R(midb[0]["c"][0]) if midb else "?", R(mids[0]["c"][0]) if mids else "?"))
+        if problems:
+            for pr in problems:
+                rep.violation(rule, "kd-tree search %s: %s" % (F.name, pr), F.loc, F.qn, "", "the search may miss the nearest centroid", key="%s|%s|%s" % (rule, F.name, pr[:40]),
+                              witness="point set in which the nearest point lies across the split plane")
+        else:
+            rep.ok(rule, "%s: near child unconditional, far child pruned on the split-axis difference, same mid in build and search" % F.name, F.loc, F.qn)
 
 
 def conversion_roundtrip(P, rep, rule="EXPR.conversion"):
